@@ -1,6 +1,6 @@
 /-
 C02: from the machine effect of each cast-table cell (Lemmas/FpCellLemmas) to "the cell chosen for (from, to) implements the
-C11 conversion" (`select_partial`).  The integer side is exact BitVec/Int arithmetic; the floating side is one application of
+C11 conversion" (`select`).  The integer side is exact BitVec/Int arithmetic; the floating side is one application of
 an `FpuSpec` contract.
 
 `Holds t s x`: the value `x` of type `t` is where `gen_expr` leaves it: integers in %rax under the representation invariant
@@ -8,6 +8,7 @@ of codegen.c (`RInt`, the same as C01's `Represents`), a float in the low 32 bit
 double in %st(0).
 -/
 import ChibiVerif.Lemmas.FpFlagLemmas
+import ChibiVerif.Lemmas.FpRoundLemmas
 
 set_option linter.unusedSimpArgs false
 set_option linter.unusedVariables false
@@ -43,15 +44,10 @@ def Holds (t : ATy) (s : FState) (x : AVal) : Prop :=
 /-- the x87 stack below the operand -/
 def stBelow (t : ATy) (s : FState) : List (BitVec 80) := if t = .f80 then s.st.tail else s.st
 
-/-- the regions of the known findings, and of the two branchy cells that are proved separately:
-    unsigned long → floating at ≥ 2^63; floating → unsigned long with integral part ≥ 2^63 -/
-def inKnownRegion (F : FpuSpec) (frm to : ATy) (x : AVal) : Bool :=
-  match frm, to, x with
-  | .int .u64, to, .int v => to.isFp && decide (9223372036854775808 ≤ v)
-  | _, .int .u64, .f32 b => match (F.val32 b).trunc? with | some i => decide (9223372036854775808 ≤ i) | none => false
-  | _, .int .u64, .f64 b => match (F.val64 b).trunc? with | some i => decide (9223372036854775808 ≤ i) | none => false
-  | _, .int .u64, .f80 b => match (F.val80 b).trunc? with | some i => decide (9223372036854775808 ≤ i) | none => false
-  | _, _, _ => false
+/-- the two cells that do x87 *arithmetic* (`fadds` of 2^64 after `fildq`; `fsub` of 2^63 before `fistpq`): their results
+    are exact only in double extended precision, the x87 precision the psABI prescribes (control word 0x37f) -/
+def usesX87Arith (frm to : ATy) : Bool :=
+  (frm == .int .u64 && to == .f80) || (frm == .f80 && to == .int .u64)
 
 macro "fp_ints" : tactic => `(tactic| (
   try simp only [BitVec.toInt_eq_toNat_cond, BitVec.toNat_setWidth, BitVec.toNat_signExtend, BitVec.msb_eq_decide,
@@ -72,6 +68,101 @@ theorem fpToInt_some (t : ITy) (ht : t ≠ .bool) (v : Val) (i : Int) (h : fpToI
     v.trunc? = some i ∧ t.inRange i := by
   cases t <;> simp [fpToInt] at h ht ⊢ <;>
     (cases hv : v.trunc? <;> simp [hv] at h <;> (obtain ⟨h1, h2⟩ := h; subst h2; exact ⟨rfl, h1⟩))
+
+
+/-! ### unsigned long at ≥ 2^63: comparison with the constant 2^63, the top bit, round-to-odd -/
+
+/-- CF after comparing with a constant that denotes 2^63: set exactly when the integral part is below 2^63 -/
+theorem cf_two63 (v : Val) (M E : Nat) (hK : M * 2 ^ E = 9223372036854775808) (t : Int) (ht : v.trunc? = some t) :
+    ((Val.cmp v (.fin false M (E : Int))).flags.2.2 = true ↔ t < 9223372036854775808) := by
+  cases v with
+  | nan => simp [Val.trunc?] at ht
+  | inf n => simp [Val.trunc?] at ht
+  | fin n m e =>
+    obtain ⟨h1, h2⟩ := Val.cmp_const n m e M E 9223372036854775808 hK (by decide) t ht
+    rw [← (show ((9223372036854775808 : Nat) : Int) = 9223372036854775808 from rfl)]
+    rw [← h1]
+    cases hc : Val.cmp (Val.fin n m e) (Val.fin false M (E : Int)) <;> simp_all [Rel.flags]
+
+theorem xor_top (x : BitVec 64) (h : x.toNat < 9223372036854775808) :
+    (x ^^^ (1#64 <<< 63)).toNat = x.toNat + 9223372036854775808 := by
+  have hmsb : x.msb = false := by rw [BitVec.msb_eq_decide]; simp; omega
+  have hand : x &&& (1#64 <<< 63) = 0#64 := by
+    apply BitVec.eq_of_getLsbD_eq
+    intro i hi
+    by_cases h63 : i = 63
+    · subst h63
+      have : x.getLsbD 63 = false := by simpa [BitVec.msb_eq_getLsbD_last] using hmsb
+      rw [BitVec.getLsbD_and, this]; simp
+    · have h1 : (1#64 <<< 63).getLsbD i = false := by
+        rw [BitVec.getLsbD_shiftLeft]
+        have : i < 63 := by omega
+        simp [this]
+      rw [BitVec.getLsbD_and, h1]; simp
+  have e : x ^^^ (1#64 <<< 63) = x + (1#64 <<< 63) := by
+    rw [BitVec.add_eq_or_of_and_eq_zero _ _ hand]
+    apply BitVec.eq_of_getLsbD_eq
+    intro i hi
+    have hb := congrArg (fun b => b.getLsbD i) hand
+    simp only [BitVec.getLsbD_and, BitVec.getLsbD_zero] at hb
+    simp only [BitVec.getLsbD_xor, BitVec.getLsbD_or]
+    cases hx : x.getLsbD i <;> cases hc : (1#64 <<< 63).getLsbD i <;> simp_all
+  rw [e, BitVec.toNat_add]
+  simp
+  omega
+
+/-- the integer t − 2^63 with bit 63 complemented represents the unsigned long t -/
+theorem tgt_u64_above (t : Int) (h1 : 9223372036854775808 ≤ t) (h2 : t < 18446744073709551616) :
+    RInt .u64 (BitVec.ofInt 64 (t - 9223372036854775808) ^^^ (1#64 <<< 63)) t := by
+  have hn : (BitVec.ofInt 64 (t - 9223372036854775808)).toNat = (t - 9223372036854775808).toNat := by
+    simp only [BitVec.toNat_ofInt]; omega
+  refine ⟨by simp [ITy.inRange, ITy.min, ITy.max, ITy.signed, ITy.bits]; omega, ?_⟩
+  simp only
+  rw [xor_top _ (by rw [hn]; omega), hn]
+  omega
+
+/-- the register-level halving (`shr`, `and $1`, `or`) read as a signed number is `halveSticky` of the unsigned value -/
+theorem halve_toInt (r : BitVec 64) (h : 2 ^ 63 ≤ r.toNat) :
+    (r >>> 1 ||| r &&& 1#64).toInt = (halveSticky r.toNat : Int) := by
+  have hh := halveSticky_lt _ h r.isLt
+  rw [BitVec.toInt_eq_toNat_cond, halve_bv]
+  split <;> omega
+
+theorem roundInt_nat (p n : Nat) : roundInt p (n : Int) = (roundNat p n : Int) := by
+  simp [roundInt]; intro h; omega
+
+theorem ofInt32_round (F : FpuSpec) (v : Int) (h0 : 0 ≤ v) (h1 : v ≤ 18446744073709551616) :
+    F.ofInt32 (roundInt 24 v) = F.ofInt32 v := by
+  obtain ⟨n, rfl⟩ := Int.eq_ofNat_of_zero_le h0
+  have hb := roundNat_le64 24 n (by decide) (by decide) (by omega)
+  rw [roundInt_nat]
+  apply F.ofInt32_congr
+  · simp; omega
+  · simp; omega
+  · constructor <;> intro h <;> omega
+  · rw [roundInt_nat, roundInt_nat, roundNat_idem 24 n (by decide)]
+
+theorem ofInt64_round (F : FpuSpec) (v : Int) (h0 : 0 ≤ v) (h1 : v ≤ 18446744073709551616) :
+    F.ofInt64 (roundInt 53 v) = F.ofInt64 v := by
+  obtain ⟨n, rfl⟩ := Int.eq_ofNat_of_zero_le h0
+  have hb := roundNat_le64 53 n (by decide) (by decide) (by omega)
+  rw [roundInt_nat]
+  apply F.ofInt64_congr
+  · simp; omega
+  · simp; omega
+  · constructor <;> intro h <;> omega
+  · rw [roundInt_nat, roundInt_nat, roundNat_idem 53 n (by decide)]
+
+/-- an unsigned long with the top bit set, as the register holds it -/
+theorem src_u64_top (r : BitVec 64) (v : Int) (h : RInt .u64 r v) (hv : ¬ v < 9223372036854775808) :
+    (r.toNat : Int) = v ∧ 2 ^ 63 ≤ r.toNat ∧ r.msb = true ∧ r.toInt = v - 18446744073709551616 := by
+  have hr : ITy.u64.inRange v := h.1
+  simp [ITy.inRange, ITy.min, ITy.max, ITy.signed, ITy.bits] at hr
+  have hnat : (r.toNat : Int) = v := by have := h.2; simp only at this; omega
+  have hlt := r.isLt
+  refine ⟨hnat, by omega, ?_, ?_⟩
+  · rw [BitVec.msb_eq_decide]; simp; omega
+  · rw [BitVec.toInt_eq_toNat_cond]; split <;> omega
 
 /-! ### integer sources: the signed reading the conversion instruction makes of the register is the C value -/
 
@@ -161,7 +252,7 @@ theorem b2bv_rint (z : Bool) : RInt .bool (b2bv (!z)) (if z = true then 0 else 1
 
 theorem sel_bool_f32 (F : FpuSpec) (s : FState) (v : Int) (h : RInt .bool (s.x.get .rax) v) (hv : v < 9223372036854775808) :
     ∃ s', run F (castSeq (.int .bool) (.f32)) s = some s' ∧ s'.xmm0.setWidth 32 = F.ofInt32 v ∧ s'.st = s.st ∧ s'.cw = s.cw ∧ s'.x.get .rsp = s.x.get .rsp := by
-  obtain ⟨s', hrun, hx, hst, hcw, hrsp⟩ := eff_u64f32 F s
+  obtain ⟨s', hrun, hx, hst, hcw, hrsp⟩ := eff_u64f32_nonneg F s (src64_bool _ _ h hv).2
   refine ⟨s', hrun, ?_, hst, hcw, hrsp⟩
   rw [hx, F.cvtsi2ss64_spec, (src64_bool _ _ h hv).1]
 
@@ -303,23 +394,59 @@ theorem sel_u32_f80 (F : FpuSpec) (s : FState) (v : Int) (h : RInt .u32 (s.x.get
   refine ⟨s', hrun, ?_, hcw, hrsp⟩
   rw [hst, F.fild64_spec, srcz_u32 _ _ h]
 
-theorem sel_u64_f32 (F : FpuSpec) (s : FState) (v : Int) (h : RInt .u64 (s.x.get .rax) v) (hv : v < 9223372036854775808) :
+/-- unsigned long → float, **all 2^64 values**: below 2^63 the signed conversion; from 2^63 on, halving with the lost bit
+    or-ed back in (round to odd), converting and doubling is the correctly rounded conversion of the unsigned value -/
+theorem sel_u64_f32 (F : FpuSpec) (s : FState) (v : Int) (h : RInt .u64 (s.x.get .rax) v) :
     ∃ s', run F (castSeq (.int .u64) (.f32)) s = some s' ∧ s'.xmm0.setWidth 32 = F.ofInt32 v ∧ s'.st = s.st ∧ s'.cw = s.cw ∧ s'.x.get .rsp = s.x.get .rsp := by
-  obtain ⟨s', hrun, hx, hst, hcw, hrsp⟩ := eff_u64f32 F s
-  refine ⟨s', hrun, ?_, hst, hcw, hrsp⟩
-  rw [hx, F.cvtsi2ss64_spec, (src64_u64 _ _ h hv).1]
+  by_cases hv : v < 9223372036854775808
+  · obtain ⟨s', hrun, hx, hst, hcw, hrsp⟩ := eff_u64f32_nonneg F s (src64_u64 _ _ h hv).2
+    refine ⟨s', hrun, ?_, hst, hcw, hrsp⟩
+    rw [hx, F.cvtsi2ss64_spec, (src64_u64 _ _ h hv).1]
+  · obtain ⟨hnat, hn1, hmsb, _⟩ := src_u64_top _ _ h hv
+    have hn2 : (s.x.get .rax).toNat < 2 ^ 64 := (s.x.get .rax).isLt
+    have hh := halveSticky_lt _ hn1 hn2
+    obtain ⟨s', hrun, hx, hst, hcw, hrsp⟩ := eff_u64f32_neg F s hmsb
+    refine ⟨s', hrun, ?_, hst, hcw, hrsp⟩
+    rw [hx, F.cvtsi2ss64_spec, halve_toInt _ hn1, F.addss_double _ (by omega), roundInt_nat]
+    have e : (2 * (roundNat 24 (halveSticky (s.x.get .rax).toNat) : Int)) = roundInt 24 v := by
+      rw [← hnat, roundInt_nat, round_halve24 _ hn1 hn2]; simp
+    rw [e]
+    exact ofInt32_round F v (by omega) (by omega)
 
-theorem sel_u64_f64 (F : FpuSpec) (s : FState) (v : Int) (h : RInt .u64 (s.x.get .rax) v) (hv : v < 9223372036854775808) :
+/-- unsigned long → double, all 2^64 values (the same argument at 53 bits) -/
+theorem sel_u64_f64 (F : FpuSpec) (s : FState) (v : Int) (h : RInt .u64 (s.x.get .rax) v) :
     ∃ s', run F (castSeq (.int .u64) (.f64)) s = some s' ∧ s'.xmm0 = F.ofInt64 v ∧ s'.st = s.st ∧ s'.cw = s.cw ∧ s'.x.get .rsp = s.x.get .rsp := by
-  obtain ⟨s', hrun, hx, hst, hcw, hrsp⟩ := eff_u64f64_nonneg F s (src64_u64 _ _ h hv).2
-  refine ⟨s', hrun, ?_, hst, hcw, hrsp⟩
-  rw [hx, F.cvtsi2sd64_spec, (src64_u64 _ _ h hv).1]
+  by_cases hv : v < 9223372036854775808
+  · obtain ⟨s', hrun, hx, hst, hcw, hrsp⟩ := eff_u64f64_nonneg F s (src64_u64 _ _ h hv).2
+    refine ⟨s', hrun, ?_, hst, hcw, hrsp⟩
+    rw [hx, F.cvtsi2sd64_spec, (src64_u64 _ _ h hv).1]
+  · obtain ⟨hnat, hn1, hmsb, _⟩ := src_u64_top _ _ h hv
+    have hn2 : (s.x.get .rax).toNat < 2 ^ 64 := (s.x.get .rax).isLt
+    have hh := halveSticky_lt _ hn1 hn2
+    obtain ⟨s', hrun, hx, hst, hcw, hrsp⟩ := eff_u64f64_neg F s hmsb
+    refine ⟨s', hrun, ?_, hst, hcw, hrsp⟩
+    rw [hx, F.cvtsi2sd64_spec, halve_toInt _ hn1, F.addsd_double _ (by omega), roundInt_nat]
+    have e : (2 * (roundNat 53 (halveSticky (s.x.get .rax).toNat) : Int)) = roundInt 53 v := by
+      rw [← hnat, roundInt_nat, round_halve _ hn1 hn2]; simp
+    rw [e]
+    exact ofInt64_round F v (by omega) (by omega)
 
-theorem sel_u64_f80 (F : FpuSpec) (s : FState) (v : Int) (h : RInt .u64 (s.x.get .rax) v) (hv : v < 9223372036854775808) :
+/-- unsigned long → long double, all 2^64 values: `fildq` reads a pattern with the top bit set as v − 2^64; 2^64 is then
+    added, exactly, in double extended precision -/
+theorem sel_u64_f80 (F : FpuSpec) (s : FState) (v : Int) (h : RInt .u64 (s.x.get .rax) v)
+    (hpc : ¬ v < 9223372036854775808 → pc s.cw = 3#2) :
     ∃ s', run F (castSeq (.int .u64) (.f80)) s = some s' ∧ s'.st = F.ofInt80 v :: s.st ∧ s'.cw = s.cw ∧ s'.x.get .rsp = s.x.get .rsp := by
-  obtain ⟨s', hrun, hst, hcw, hrsp⟩ := eff_u64f80_nonneg F s (src64_u64 _ _ h hv).2
-  refine ⟨s', hrun, ?_, hcw, hrsp⟩
-  rw [hst, F.fild64_spec, (src64_u64 _ _ h hv).1]
+  by_cases hv : v < 9223372036854775808
+  · obtain ⟨s', hrun, hst, hcw, hrsp⟩ := eff_u64f80_nonneg F s (src64_u64 _ _ h hv).2
+    refine ⟨s', hrun, ?_, hcw, hrsp⟩
+    rw [hst, F.fild64_spec, (src64_u64 _ _ h hv).1]
+  · obtain ⟨hnat, hn1, hmsb, hint⟩ := src_u64_top _ _ h hv
+    have hr : ITy.u64.inRange v := h.1
+    simp [ITy.inRange, ITy.min, ITy.max, ITy.signed, ITy.bits] at hr
+    obtain ⟨s', hrun, hst, hcw, hrsp⟩ := eff_u64f80_neg F s hmsb
+    refine ⟨s', hrun, ?_, hcw, hrsp⟩
+    rw [hst, F.fild64_spec, hint]
+    exact congrArg (· :: s.st) (F.fadd_two64 s.cw v (hpc hv) (by omega) (by omega))
 
 theorem sel_f32_i8 (F : FpuSpec) (s : FState) (b : BitVec 32) (hs : s.xmm0.setWidth 32 = b) (i : Int)
     (htr : (F.val32 b).trunc? = some i) (hin : ITy.i8.inRange i)  :
@@ -398,16 +525,32 @@ theorem sel_f32_u32 (F : FpuSpec) (s : FState) (b : BitVec 32) (hs : s.xmm0.setW
   rw [hrax, hs, F.cvttss2si64_spec, truncTo_fit 64 _ i htr hb.1 hb.2]
   exact tgt_sse_u32 i hin
 
+/-- float → unsigned long for **every** value with 0 ≤ trunc x < 2^64: below 2^63 the signed truncation; from 2^63 on,
+    x − 2^63 (exact), signed truncation, bit 63 complemented -/
 theorem sel_f32_u64 (F : FpuSpec) (s : FState) (b : BitVec 32) (hs : s.xmm0.setWidth 32 = b) (i : Int)
-    (htr : (F.val32 b).trunc? = some i) (hin : ITy.u64.inRange i) (hreg : i < 9223372036854775808) :
+    (htr : (F.val32 b).trunc? = some i) (hin : ITy.u64.inRange i) :
     ∃ s', run F (castSeq .f32 (.int .u64)) s = some s' ∧ RInt .u64 (s'.x.get .rax) i ∧ s'.st = s.st ∧ s'.cw = s.cw ∧
       s'.x.get .rsp = s.x.get .rsp := by
-  obtain ⟨s', hrun, hrax, hst, hcw, hrsp⟩ := eff_f32u64 F s
-  refine ⟨s', hrun, ?_, hst, hcw, hrsp⟩
-  have hb : -(2 ^ (64 - 1) : Int) ≤ i ∧ i < 2 ^ (64 - 1) := by
+  have hr : 0 ≤ i ∧ i < 18446744073709551616 := by
     simp [ITy.inRange, ITy.min, ITy.max, ITy.signed, ITy.bits] at hin; omega
-  rw [hrax, hs, F.cvttss2si64_spec, truncTo_fit 64 _ i htr hb.1 hb.2]
-  exact tgt_sse_u64 i hin
+  have hcf := cf_two63 (F.val32 b) 8388608 40 (by decide) i htr
+  have hcm : F.comiss (s.xmm0.setWidth 32) 0x5f000000#32 = Val.cmp (F.val32 b) (.fin false 8388608 ((40 : Nat) : Int)) := by
+    rw [F.comiss_spec, hs, F.val32_two63]; rfl
+  by_cases hlt : i < 9223372036854775808
+  · obtain ⟨s', hrun, hrax, hst, hcw, hrsp⟩ := eff_f32u64_below F s (by rw [hcm]; exact hcf.2 hlt)
+    refine ⟨s', hrun, ?_, hst, hcw, hrsp⟩
+    rw [hrax, hs, F.cvttss2si64_spec, truncTo_fit 64 _ i htr (by omega) (by omega)]
+    exact tgt_sse_u64 i hin
+  · have hcf0 : (F.comiss (s.xmm0.setWidth 32) 0x5f000000#32).flags.2.2 = false := by
+      rw [hcm]
+      cases hc : (Val.cmp (F.val32 b) (.fin false 8388608 ((40 : Nat) : Int))).flags.2.2
+      · rfl
+      · exact absurd (hcf.1 hc) hlt
+    obtain ⟨s', hrun, hrax, hst, hcw, hrsp⟩ := eff_f32u64_above F s hcf0
+    refine ⟨s', hrun, ?_, hst, hcw, hrsp⟩
+    have hsub := F.subss_two63 b i htr (by omega) hr.2
+    rw [hrax, hs, F.cvttss2si64_spec, truncTo_fit 64 _ _ hsub (by omega) (by omega)]
+    exact tgt_u64_above i (by omega) hr.2
 
 theorem sel_f64_i8 (F : FpuSpec) (s : FState) (b : BitVec 64) (hs : s.xmm0 = b) (i : Int)
     (htr : (F.val64 b).trunc? = some i) (hin : ITy.i8.inRange i)  :
@@ -487,15 +630,29 @@ theorem sel_f64_u32 (F : FpuSpec) (s : FState) (b : BitVec 64) (hs : s.xmm0 = b)
   exact tgt_sse_u32 i hin
 
 theorem sel_f64_u64 (F : FpuSpec) (s : FState) (b : BitVec 64) (hs : s.xmm0 = b) (i : Int)
-    (htr : (F.val64 b).trunc? = some i) (hin : ITy.u64.inRange i) (hreg : i < 9223372036854775808) :
+    (htr : (F.val64 b).trunc? = some i) (hin : ITy.u64.inRange i) :
     ∃ s', run F (castSeq .f64 (.int .u64)) s = some s' ∧ RInt .u64 (s'.x.get .rax) i ∧ s'.st = s.st ∧ s'.cw = s.cw ∧
       s'.x.get .rsp = s.x.get .rsp := by
-  obtain ⟨s', hrun, hrax, hst, hcw, hrsp⟩ := eff_f64u64 F s
-  refine ⟨s', hrun, ?_, hst, hcw, hrsp⟩
-  have hb : -(2 ^ (64 - 1) : Int) ≤ i ∧ i < 2 ^ (64 - 1) := by
+  have hr : 0 ≤ i ∧ i < 18446744073709551616 := by
     simp [ITy.inRange, ITy.min, ITy.max, ITy.signed, ITy.bits] at hin; omega
-  rw [hrax, hs, F.cvttsd2si64_spec, truncTo_fit 64 _ i htr hb.1 hb.2]
-  exact tgt_sse_u64 i hin
+  have hcf := cf_two63 (F.val64 b) 4503599627370496 11 (by decide) i htr
+  have hcm : F.comisd s.xmm0 0x43e0000000000000#64 = Val.cmp (F.val64 b) (.fin false 4503599627370496 ((11 : Nat) : Int)) := by
+    rw [F.comisd_spec, hs, F.val64_two63]; rfl
+  by_cases hlt : i < 9223372036854775808
+  · obtain ⟨s', hrun, hrax, hst, hcw, hrsp⟩ := eff_f64u64_below F s (by rw [hcm]; exact hcf.2 hlt)
+    refine ⟨s', hrun, ?_, hst, hcw, hrsp⟩
+    rw [hrax, hs, F.cvttsd2si64_spec, truncTo_fit 64 _ i htr (by omega) (by omega)]
+    exact tgt_sse_u64 i hin
+  · have hcf0 : (F.comisd s.xmm0 0x43e0000000000000#64).flags.2.2 = false := by
+      rw [hcm]
+      cases hc : (Val.cmp (F.val64 b) (.fin false 4503599627370496 ((11 : Nat) : Int))).flags.2.2
+      · rfl
+      · exact absurd (hcf.1 hc) hlt
+    obtain ⟨s', hrun, hrax, hst, hcw, hrsp⟩ := eff_f64u64_above F s hcf0
+    refine ⟨s', hrun, ?_, hst, hcw, hrsp⟩
+    have hsub := F.subsd_two63 b i htr (by omega) hr.2
+    rw [hrax, hs, F.cvttsd2si64_spec, truncTo_fit 64 _ _ hsub (by omega) (by omega)]
+    exact tgt_u64_above i (by omega) hr.2
 
 theorem sel_f80_i8 (F : FpuSpec) (s : FState) (b : BitVec 80) (rest : List (BitVec 80)) (hs : s.st = b :: rest) (i : Int)
     (htr : (F.val80 b).trunc? = some i) (hin : ITy.i8.inRange i)  :
@@ -574,16 +731,32 @@ theorem sel_f80_u32 (F : FpuSpec) (s : FState) (b : BitVec 80) (rest : List (Bit
   rw [hrax, F.fistp64_rz _ _ (rc_cwOr s.cw), truncTo_fit 64 _ i htr hb.1 hb.2]
   exact tgt_x87_u32 i hin
 
+/-- long double → unsigned long: the x87 form of the same sequence (`fcomi` with the extended 2^63, `fsub`, `fistpq` under
+    RC = 11b, bit 63 from `setae`); the subtraction is exact in double extended precision -/
 theorem sel_f80_u64 (F : FpuSpec) (s : FState) (b : BitVec 80) (rest : List (BitVec 80)) (hs : s.st = b :: rest) (i : Int)
-    (htr : (F.val80 b).trunc? = some i) (hin : ITy.u64.inRange i) (hreg : i < 9223372036854775808) :
+    (htr : (F.val80 b).trunc? = some i) (hin : ITy.u64.inRange i) (hpc : ¬ i < 9223372036854775808 → pc s.cw = 3#2) :
     ∃ s', run F (castSeq .f80 (.int .u64)) s = some s' ∧ RInt .u64 (s'.x.get .rax) i ∧ s'.st = rest ∧ s'.cw = s.cw ∧
       s'.x.get .rsp = s.x.get .rsp := by
+  have hr : 0 ≤ i ∧ i < 18446744073709551616 := by
+    simp [ITy.inRange, ITy.min, ITy.max, ITy.signed, ITy.bits] at hin; omega
+  have hcf := cf_two63 (F.val80 b) 9223372036854775808 0 (by decide) i htr
+  have hcm : F.fcomi b (F.fld32 0x5f000000#32) = Val.cmp (F.val80 b) (.fin false 9223372036854775808 ((0 : Nat) : Int)) := by
+    rw [F.fcomi_spec, F.val80_two63]; rfl
   obtain ⟨s', hrun, hrax, hst, hcw, hrsp⟩ := eff_f80u64 F s b rest hs
   refine ⟨s', hrun, ?_, hst, hcw, hrsp⟩
-  have hb : -(2 ^ (64 - 1) : Int) ≤ i ∧ i < 2 ^ (64 - 1) := by
-    simp [ITy.inRange, ITy.min, ITy.max, ITy.signed, ITy.bits] at hin; omega
-  rw [hrax, F.fistp64_rz _ _ (rc_cwOr s.cw), truncTo_fit 64 _ i htr hb.1 hb.2]
-  exact tgt_x87_u64 i hin
+  rw [hrax, hcm]
+  by_cases hlt : i < 9223372036854775808
+  · rw [if_pos (hcf.2 hlt), F.fistp64_rz _ _ (rc_cwOr s.cw), truncTo_fit 64 _ i htr (by omega) (by omega)]
+    exact tgt_x87_u64 i hin
+  · have hcf0 : (Val.cmp (F.val80 b) (.fin false 9223372036854775808 ((0 : Nat) : Int))).flags.2.2 = false := by
+      cases hc : (Val.cmp (F.val80 b) (.fin false 9223372036854775808 ((0 : Nat) : Int))).flags.2.2
+      · rfl
+      · exact absurd (hcf.1 hc) hlt
+    have hsub := F.fsub_two63 s.cw b i (hpc hlt) htr (by omega) hr.2
+    rw [hcf0]
+    simp only [Bool.false_eq_true, if_false]
+    rw [F.fistp64_rz _ _ (rc_cwOr s.cw), truncTo_fit 64 _ _ hsub (by omega) (by omega)]
+    exact tgt_u64_above i (by omega) hr.2
 
 
 /-! ### floating → _Bool: `cmp_zero`, `setne %al`, `movzx %al, %eax` -/
@@ -648,11 +821,11 @@ theorem sel_f80_bool (F : FpuSpec) (s : FState) (b : BitVec 80) (rest : List (Bi
 
 theorem run_nil (F : FpuSpec) (s : FState) : run F [] s = some s := rfl
 
-/-- **the instruction list chosen for (from, to) implements the C11 conversion**, for every machine state and every FPU
-    meeting the contract, outside the regions of `inKnownRegion` -/
-theorem select_partial (F : FpuSpec) (frm to : ATy) (s : FState) (x y : AVal)
+/-- **the instruction list chosen for (from, to) implements the C11 conversion**, for every machine state, every operand value
+    and every FPU meeting the contract (the two cells that do x87 arithmetic: under the ABI's x87 precision) -/
+theorem select (F : FpuSpec) (frm to : ATy) (s : FState) (x y : AVal)
     (hfp : frm.isFp = true ∨ to.isFp = true) (hh : Holds frm s x) (hc : convert F s.cw to x = some y)
-    (hreg : inKnownRegion F frm to x = false) :
+    (hpc : usesX87Arith frm to = true → pc s.cw = 3#2) :
     ∃ s', run F (castSeq frm to) s = some s' ∧ Holds to s' y ∧ s'.cw = s.cw ∧ stBelow to s' = stBelow frm s ∧
       s'.x.get .rsp = s.x.get .rsp := by
   cases frm with
@@ -690,7 +863,7 @@ theorem select_partial (F : FpuSpec) (frm to : ATy) (s : FState) (x y : AVal)
           obtain ⟨s', hrun, hx, hst, hcw, hrsp⟩ := sel_u32_f32 F s v hh
           exact ⟨s', hrun, hx, hcw, by simp [stBelow, hst], hrsp⟩
         | u64 =>
-          obtain ⟨s', hrun, hx, hst, hcw, hrsp⟩ := sel_u64_f32 F s v hh (by simpa [inKnownRegion, ATy.isFp] using hreg)
+          obtain ⟨s', hrun, hx, hst, hcw, hrsp⟩ := sel_u64_f32 F s v hh
           exact ⟨s', hrun, hx, hcw, by simp [stBelow, hst], hrsp⟩
       | f64 =>
         simp only [ChibiVerif.Spec.FpC11.convert, Option.some.injEq] at hc; subst hc
@@ -720,7 +893,7 @@ theorem select_partial (F : FpuSpec) (frm to : ATy) (s : FState) (x y : AVal)
           obtain ⟨s', hrun, hx, hst, hcw, hrsp⟩ := sel_u32_f64 F s v hh
           exact ⟨s', hrun, hx, hcw, by simp [stBelow, hst], hrsp⟩
         | u64 =>
-          obtain ⟨s', hrun, hx, hst, hcw, hrsp⟩ := sel_u64_f64 F s v hh (by simpa [inKnownRegion, ATy.isFp] using hreg)
+          obtain ⟨s', hrun, hx, hst, hcw, hrsp⟩ := sel_u64_f64 F s v hh
           exact ⟨s', hrun, hx, hcw, by simp [stBelow, hst], hrsp⟩
       | f80 =>
         simp only [ChibiVerif.Spec.FpC11.convert, Option.some.injEq] at hc; subst hc
@@ -750,7 +923,7 @@ theorem select_partial (F : FpuSpec) (frm to : ATy) (s : FState) (x y : AVal)
           obtain ⟨s', hrun, hst, hcw, hrsp⟩ := sel_u32_f80 F s v hh
           exact ⟨s', hrun, ⟨s.st, hst⟩, hcw, by simp [stBelow, hst], hrsp⟩
         | u64 =>
-          obtain ⟨s', hrun, hst, hcw, hrsp⟩ := sel_u64_f80 F s v hh (by simpa [inKnownRegion, ATy.isFp] using hreg)
+          obtain ⟨s', hrun, hst, hcw, hrsp⟩ := sel_u64_f80 F s v hh (fun _ => hpc rfl)
           exact ⟨s', hrun, ⟨s.st, hst⟩, hcw, by simp [stBelow, hst], hrsp⟩
     | f32 b => exact absurd hh (by simp [Holds])
     | f64 b => exact absurd hh (by simp [Holds])
@@ -800,7 +973,7 @@ theorem select_partial (F : FpuSpec) (frm to : ATy) (s : FState) (x y : AVal)
           exact ⟨s', hrun, hr, hcw, by simp [stBelow, hst], hrsp⟩
         | u64 =>
           obtain ⟨htr, hin⟩ := fpToInt_some _ (by decide) _ _ hi
-          obtain ⟨s', hrun, hr, hst, hcw, hrsp⟩ := sel_f32_u64 F s b hh i htr hin (by simpa [inKnownRegion, htr] using hreg)
+          obtain ⟨s', hrun, hr, hst, hcw, hrsp⟩ := sel_f32_u64 F s b hh i htr hin
           exact ⟨s', hrun, hr, hcw, by simp [stBelow, hst], hrsp⟩
       | f32 =>
         simp only [ChibiVerif.Spec.FpC11.convert, Option.some.injEq] at hc; subst hc
@@ -860,7 +1033,7 @@ theorem select_partial (F : FpuSpec) (frm to : ATy) (s : FState) (x y : AVal)
           exact ⟨s', hrun, hr, hcw, by simp [stBelow, hst], hrsp⟩
         | u64 =>
           obtain ⟨htr, hin⟩ := fpToInt_some _ (by decide) _ _ hi
-          obtain ⟨s', hrun, hr, hst, hcw, hrsp⟩ := sel_f64_u64 F s b hh i htr hin (by simpa [inKnownRegion, htr] using hreg)
+          obtain ⟨s', hrun, hr, hst, hcw, hrsp⟩ := sel_f64_u64 F s b hh i htr hin
           exact ⟨s', hrun, hr, hcw, by simp [stBelow, hst], hrsp⟩
       | f32 =>
         simp only [ChibiVerif.Spec.FpC11.convert, Option.some.injEq] at hc; subst hc
@@ -921,7 +1094,7 @@ theorem select_partial (F : FpuSpec) (frm to : ATy) (s : FState) (x y : AVal)
           exact ⟨s', hrun, hr, hcw, by simp [stBelow, hst, hrest], hrsp⟩
         | u64 =>
           obtain ⟨htr, hin⟩ := fpToInt_some _ (by decide) _ _ hi
-          obtain ⟨s', hrun, hr, hst, hcw, hrsp⟩ := sel_f80_u64 F s b rest hrest i htr hin (by simpa [inKnownRegion, htr] using hreg)
+          obtain ⟨s', hrun, hr, hst, hcw, hrsp⟩ := sel_f80_u64 F s b rest hrest i htr hin (fun _ => hpc rfl)
           exact ⟨s', hrun, hr, hcw, by simp [stBelow, hst, hrest], hrsp⟩
       | f32 =>
         simp only [ChibiVerif.Spec.FpC11.convert, Option.some.injEq] at hc; subst hc
